@@ -14,6 +14,9 @@ CLAIMED = {
  "C09": dict(technique="TLA+ spec Truncate.tla: relation TruncOK over measurable facts + abstract algorithm TruncImpl model-checked against it (with must-fail broken variants); TLC-enumerated (reply shape, size selector) cases executed on the real Truncate, facts judged by TLC (Trace_Truncate); random replies likewise",
              text="The statement is written once as the relation TruncOK (prefixes, later-sections-empty, OPT kept, TC iff dropped, fits=>keep, fits-after, first-dropped-would-not-fit). TLC proves an abstract model of msg_truncate.go satisfies it for every small message x size and that three broken variants do not; every enumerated (shape, exact-fit -1/0/+1 size) case and tens of thousands of random replies are run through the real Truncate and the measured facts are judged by TLC with the same relation.",
              note="Trusted: TLC, JSON bridge, packed lengths measured with the real Pack (fidelity of Pack is C01/C04/C08). 'Fits' means fits when packed with compression.", ref="4/C09"),
+ "C02": dict(technique="TLA+ specs Names.tla (DecName) + Framing.tla (framing walk): TLC-classified hostile inputs (all pointer graphs in a short window, chains to 1000 hops, names around 255 octets, reserved label types) replayed into the decoders; every ACCEPTED decode of those and of mutated valid messages validated by TLC (Trace_Framing); panics/time/allocation observed by the harness",
+             text="The spec decides which inputs no reading of RFC 1035 accepts and what an accepted decode must look like (records = prefix of the framing walk of the same octets, all names valid). TLC enumerates the hostile universe; the harness runs the real decoders on it and on ~10^4..10^6 mutations of valid messages of ~85 RR types under panic/time/allocation guards, and TLC judges every accepted result.",
+             note="Trusted: TLC, JSON bridge. Panics, wall time and allocation are runtime observations outside TLA+ (bounds: 2 s reproduced 3x, 512*len+64KiB). Errors are always allowed; only acceptance is judged.", ref="4/C02"),
 }
 PENDING = "check not built yet in this round (the specification module is planned in DESIGN.md section 4); will be claimed when its check runs clean"
 
